@@ -7,7 +7,9 @@ from .prog import IllTyped, cols_of
 
 A, B, C, D = ("ref", "a"), ("ref", "b"), ("ref", "c"), ("ref", "d")
 LEAVES = {"X": ("it1", ("a", "b", "c")), "S": ("sq", ("a", "b", "c")), "Z": ("sq", ("a", "d")), "Y": ("it1", ("a", "b", "c")),
-          "T": ("sq", ("a", "b", "c")), "U": ("it2", ("a", "b", "c"))}
+          "T": ("sq", ("a", "b", "c")), "U": ("it2", ("a", "b", "c")),
+          # two relations that share only a non-key column (v), and one that shares a key and a non-key column with them
+          "N1": ("sq", ("a", "v")), "N2": ("sq", ("b", "v")), "N3": ("sq", ("a", "v", "w"))}
 LEAFCOLS = {k: v[1] for k, v in LEAVES.items()}
 ENGINES = ("it1", "it2", "sq")
 
